@@ -31,6 +31,11 @@ def _expr(e: ast.expr, atoms: list[str], rename):
     if isinstance(e, ast.IfExp):
         c, a, b = _expr(e.test, atoms, rename), _expr(e.body, atoms, rename), _expr(e.orelse, atoms, rename)
         return lambda env: a(env) if c(env) else b(env)
+    # the negative spelling of a comparison is the negation of its positive spelling: one atom for both
+    if isinstance(e, ast.Compare) and len(e.ops) == 1 and isinstance(e.ops[0], (ast.IsNot, ast.NotEq, ast.NotIn)):
+        pos = {ast.IsNot: ast.Is, ast.NotEq: ast.Eq, ast.NotIn: ast.In}[type(e.ops[0])]()
+        f = _expr(ast.Compare(left=e.left, ops=[pos], comparators=e.comparators), atoms, rename)
+        return lambda env: not f(env)
     name = rename(unparse(e))
     if name not in atoms:
         atoms.append(name)
